@@ -61,6 +61,15 @@ Lemma F_slash : flow_slash = 47. Proof. reflexivity. Qed.
 Lemma F_local : forallb (fun p => forallb (fun cl : cls => negb (cl 60) && negb (cl 38)) p) spec_pats = true.
 Proof. vm_compute. reflexivity. Qed.
 
+(* the HTML attributes that are options of the docutils image / admonition directives *)
+Definition spec_image_keys : list str :=
+  [[97;108;105;103;110]; [97;108;116]; [99;108;97;115;115]; [104;101;105;103;104;116]; [110;97;109;101];
+   [119;105;100;116;104]].                       (* align alt class height name width *)
+Definition spec_admonition_keys : list str := [[99;108;97;115;115]; [110;97;109;101]].   (* class name *)
+
+Lemma keys_spec : option_keys_image = spec_image_keys /\ option_keys_admonition = spec_admonition_keys.
+Proof. split; reflexivity. Qed.
+
 (* ------------------------------------------------------------------ proofs *)
 
 Lemma pat_match_mono (pa pb : list cls) s :
